@@ -249,12 +249,17 @@ def justify_case(ctx, specs, w, j, ov):
     texts = [build(sp) for sp in specs]
     req = [FLAGS, W.enc_texts(texts), w, W.J[j], W.O[ov]]
     before = [W.nonspace(W.stream(t)) for t in texts]
+    before_cells = [cell_len(t.plain) for t in texts]
     lines = Lines(texts)
     lines.justify(W.FC, w, justify=j, overflow=ov)
     ctx.case("wrap_justify", req, W.ans_texts(lines), shape=j, sample=f"Lines({[sp[0] for sp in specs]!r}).justify({w},{j!r},{ov!r})")
     if ov != "ignore" and j in ("left", "center", "right"):
         bad = [l.plain for l in lines if cell_len(l.plain) != w]
         ctx.check(not bad, "justify:exact-width", (specs, w, j, ov), f"justified lines {bad!r} are not exactly {w} cells")
+    if j == "full":
+        # spreading the blanks never makes a line that fitted too wide (the blanks are counted in cells)
+        bad = [l.plain for c0, l in zip(before_cells, lines) if c0 <= w < cell_len(l.plain)]
+        ctx.check(not bad, "justify:full-fits", (specs, w, j, ov), f"full-justified lines {bad!r} outgrew {w} cells")
     # styles of surviving characters
     for b, l in zip(before, lines):
         st = W.stream(l)
@@ -263,7 +268,8 @@ def justify_case(ctx, specs, w, j, ov):
             ctx.check(not isinstance(st, str) or isinstance(b, str), "justify:style", (specs, w, j, ov), f"rendering a justified line raises {st}", finding=fin)
             continue
         a = W.nonspace(st)
-        ok = W.embeds(a, b) if ov != "ignore" else a == b
+        # "full" and "default" never crop, "ignore" neither; the other modes may crop at the end
+        ok = (a == b) if (ov == "ignore" or j in ("full", "default")) else W.embeds(a, b)
         fin = None
         if not ok and ov == "ignore" and j in ("center", "right") and cell_len(l.plain) > w:
             fin = "justify-negative-pad"
@@ -456,9 +462,13 @@ MANIFEST = {
     "note": (
         "partial: (1) because Text.expand_tabs re-applies the base style and Text('').join puts the null style in front, "
         "the headline theorem compares effective styles in a normal form (null erased, adjacent repetitions merged) - "
-        "exact equality is proved for tab-free texts with justify other than full; (2) the every-overflow-mode statement "
-        "(wrapLine_style_preserved) is per paragraph after tab expansion and for justify default/left/center/right; for "
-        "justify='full' style preservation is proved for overflow 'fold' only (wrap_lines_fit covers every mode); (3) styles are opaque names: 'carries exactly the style' is "
+        "exact equality is proved for tab-free texts with justify other than full; (2) the every-overflow-mode statements "
+        "(wrapLine_style_preserved for justify default/left/center/right: blanks + prefix of the piece + blanks/ellipsis; "
+        "wrapLine_style_preserved_full for justify full: the non-whitespace characters shown are a prefix of the piece's, "
+        "with their styles modulo the null style, between ellipses) are per paragraph after tab expansion; all theorems "
+        "hold for both forms of Text.rstrip_end (characters vs cells, flag RSTRIP_END_CHARS of props.c05); what the C08 "
+        "repair adds is fold_lines_fit_before_crop (+ witness old_wrap_ellipsis_drops_fitting_char: today 'ああ b' at width "
+        "4 with overflow ellipsis yields 'あ …'); (3) styles are opaque names: 'carries exactly the style' is "
         "equality of the list of names applied in order (free monoid), modulo the null style where full justification is "
         "involved; in the direct evaluation equality is up to the laws every rich Style satisfies ('' neutral, x+x = x, "
         "x+y+x = y+x) because tab expansion and full justification re-apply the base style; (4) the whitespace class is "
